@@ -685,4 +685,6 @@ def run(cx, tier='quick'):
                         '#[derive(Debug)] is specified as debug_struct(Name).field("f", &self.f)… / debug_tuple(Name).field(&self.0)… / write_str(Variant)',
                         'union Debug is covered by C20']
     rep.not_decided += ['stringify! of raw identifiers (excluded by the property)']
+    from .binders import check_binder_injectivity
+    check_binder_injectivity(cx, rep, ['::debug::'])
     return rep
